@@ -1045,6 +1045,10 @@ class OmniParser(PVLParser):
             for t in self.lexer(s, g=self.grammar, d=self.decoder):
                 if t.is_comment() and t.startswith(starts):
                     spans.append((t.pos, t.pos + len(t)))
+                elif t.is_end_statement():
+                    # What follows the End Statement is not part of the
+                    # label and can be very long (e.g. image data).
+                    break
         except LexerError:
             pass
         return spans
